@@ -162,7 +162,13 @@ def table():
         need = need.replace("|", "/")[:230]
         sig = (own.get("signatures") or [""])[0].replace("signature=", "").split(" count=")[0][:80]
         files = ", ".join(f.replace("src/tola/", "") for f in m["files_touched"])
-        rows.append(f"| {m['id']} | {files} | {need} | {m.get('first_quick_result', own.get('result', '?'))} | {own.get('result', '?')} | `{sig}` |")
+        now = own.get("result", "?")
+        if now != "CAUGHT":
+            others = sorted(k.split(":")[0] for k, v in m.get("checks", {}).items() if v.get("result") == "CAUGHT" and k.endswith(":quick"))
+            if others:
+                now += f" (caught by {', '.join(others)})"
+                sig = (m["checks"][others[0] + ":quick"].get("signatures") or [""])[0].replace("signature=", "").split(" count=")[0][:80]
+        rows.append(f"| {m['id']} | {files} | {need} | {m.get('first_quick_result', own.get('result', '?'))} | {now} | `{sig}` |")
     txt = "\n".join(rows)
     d = V / "DESIGN.md"
     s = d.read_text()
